@@ -125,6 +125,98 @@ def run(oid, *, width, zconsts, build, check, make_case, max_paths=400, query_ms
     return res
 
 
+def run_fork(oid, *, width, zconsts, build, check, make_case, max_seconds=50, query_ms=20000, known=(), sample=None, reset=True):
+    """same contract as run(), but explores by process forks (no re-execution): for code whose control flow depends on memory
+    addresses (set / id() ordering in SolverComposite), where a replay would not follow the recorded decisions.  Each leaf process
+    evaluates its own path and sends back a picklable summary."""
+    from pysym import engine as E
+    from pysym import glue
+
+    glue.install()
+    res = common.result(oid, "holds")
+    if sample is not None:
+        res["sample"] = sample
+
+    def wrapped():
+        if reset:
+            glue.reset_caches()
+        return build()
+
+    def finish(path):
+        out = {"kind": path.kind, "incon": [], "known": [], "viol": None, "exc": None, "checks": 0}
+        if path.kind in ("unknown", "unsupported", "diverged"):
+            out["incon"].append(f"{path.kind}: {str(path.result)[:120]}")
+            return out
+        if path.kind == "exc":
+            out["exc"] = type(path.result).__name__ + ": " + str(path.result)[:80]
+        s = E.new_solver(path.pc, query_ms)
+        for o in path.obligations:
+            if E.check_sat(s, z3.Not(o)) != "unsat":
+                out["incon"].append("integer-model obligation (fits) not valid on a path")
+                return out
+        for f in list(check(path, s, path.result if path.kind == "ok" else None) or []):
+            if f.kind == "unknown":
+                out["incon"].append(f.detail)
+                continue
+            s2 = E.new_solver(path.pc, query_ms)
+            if f.extra is not None:
+                s2.add(f.extra)
+            q = E.check_sat(s2)
+            if q == "unknown":
+                out["incon"].append("unknown: " + f.kind)
+                continue
+            if q != "sat":
+                continue
+            kkey = f.known_key
+            if getattr(f, "classify", None) is not None:
+                ck = f.classify(s2.model())
+                if ck is not None:
+                    kkey = ck
+            kid = None
+            for k in known:
+                if k.get("key") in (None, "*") or k.get("key") == kkey:
+                    kid = k["id"]
+            if kid is not None:
+                out["known"].append(kid)
+                continue
+            vals = E.model_dict(s2.model(), list(zconsts.values()))
+            out["viol"] = (f"{f.kind}: {f.detail}", make_case(vals, f))
+            break
+        out["checks"] = E.STATS.checks
+        return out
+
+    outs, complete = E.explore_fork(wrapped, finish, timeout_ms=query_ms, width=width, max_seconds=max_seconds)
+    nok = 0
+    excs = {}
+    for o in outs:
+        if "harness_error" in o:
+            res["status"] = "error"
+            res["detail"] = "exploration leaf crashed: " + o["harness_error"]
+            return res
+        res["paths"] += 1
+        res["queries"] = res.get("queries", 0) + o.get("checks", 0)
+        nok += o["kind"] == "ok"
+        if o["exc"]:
+            excs[o["exc"]] = excs.get(o["exc"], 0) + 1
+        res["inconclusive"] += o["incon"]
+        res["known_hits"] += [k for k in o["known"] if k not in res["known_hits"]]
+        if o["viol"] and res["status"] != "violation":
+            res["status"] = "violation"
+            res["detail"], case = o["viol"]
+            res["cex"] = [case]
+    if not complete:
+        res["inconclusive"].append(f"wall budget exhausted after {res['paths']} paths (fork mode)")
+    res["ok_paths"] = nok
+    if excs and isinstance(res.get("sample"), dict):
+        res["sample"]["exceptions_seen"] = excs
+    if nok == 0 and res["paths"] > 0 and res["status"] == "holds":
+        res["inconclusive"].append("vacuous: every explored path raised before the assertion: " + "; ".join(list(excs)[:2]))
+    if res["status"] == "holds" and res["inconclusive"]:
+        res["status"] = "inconclusive"
+        res["detail"] = res["inconclusive"][0]
+    return res
+
+
 def equiv_fail(s, got, want, kind, detail, known_key=None):
     """Fail object if got != want is satisfiable under the solver's assertions (NaN == NaN for floats)"""
     from pysym import engine as E
